@@ -2,6 +2,7 @@
 first set missed (DESIGN §8).  Each is a condition whose violation breaks behaviour; none matches text."""
 from oracle import defs as D
 from rules import grd as G
+from rules.core import simplify_proj
 from rules.core import (path_conditions, reach_alternatives, op_expr, rvalue_expr, show, strip_casts, expr_calls, expr_consts,
                         callee_name, last_seg, pol_is_variant, tbl_eval, NotATable, fold, AnchorMissing)
 
@@ -608,6 +609,99 @@ def rule_ok_requires_digits(col, facts):
                 col.check(R, "%s:ok#%d" % (name, n), bad_alt is None,
                           "an Ok(..) result is returned on a path that neither found the format not to require digits nor a non-zero digit count (last conditions: %s)" % ([(show(e)[:50], p) for _d, e, p in (bad_alt or [])][-3:]), f.loc(st[3]))
         col.floor(R, "Ok sites in %s" % name, n, 3)
+
+
+# ---------------------------------------------------------------------------------------------
+def rule_grisu_boundaries(col, facts):
+    """CFG-boundary (Grisu, compact): the lower boundary is twice as close exactly when the significand is the
+    hidden bit *of the float type being written* (a power of two), optionally excluding the smallest normal
+    exponent (`exp != DENORMAL_EXPONENT`, as in the reference).  Comparing with another type's hidden bit
+    never matches for f32; requiring `exp == DENORMAL_EXPONENT` disables it for every other power of two:
+    both give Grisu an interval that is too wide and the shortest digits may read back as the neighbour."""
+    from rules.core import enum_paths
+    if not facts.config.startswith("compact"):
+        return
+    R = "CFG-boundary"
+    f = facts.fn(WF + "compact::normalized_boundaries")
+    hid = []
+    den = []
+    for i, b in enumerate(f.blocks):
+        if not f.live(i):
+            continue
+        for st in b["s"]:
+            if st[0] == "=" and st[2][0] == "bin" and st[2][1] in ("Eq", "Ne"):
+                e = rvalue_expr(f, st[2], 0)
+                ks = expr_consts(e)
+                if any(last_seg(k[1]) == "HIDDEN_BIT_MASK" for k in ks):
+                    hid.append((e, st[3], st[1][0]))
+                if any(last_seg(k[1]) == "DENORMAL_EXPONENT" for k in ks):
+                    den.append((e, st[3], st[1][0]))
+    col.check(R, "normalized_boundaries:hidden-bit-test", len(hid) == 1, "expected one comparison with HIDDEN_BIT_MASK, found %d" % len(hid), f.loc())
+    for e, sp, _l in hid:
+        ks = [k for k in expr_consts(e) if last_seg(k[1]) == "HIDDEN_BIT_MASK"]
+        generic = all(k[1].endswith("num::Float::HIDDEN_BIT_MASK") and "F/#" in str(k[3]) for k in ks)
+        col.check(R, "normalized_boundaries:hidden-bit-of-F", generic and e[1] == "Eq",
+                  "`%s`: the power-of-two test does not compare the significand with F::HIDDEN_BIT_MASK of the float type being written (%s)" % (show(e), [(k[1], k[3]) for k in ks]), f.loc(sp))
+    for e, sp, l in den:
+        # allowed: exp != DENORMAL_EXPONENT, or !(exp == DENORMAL_EXPONENT)
+        negated = False
+        for b in f.blocks:
+            for st in b["s"]:
+                if st[0] == "=" and st[2][0] == "un" and st[2][1] == "Not" and st[2][2][0] in ("cp", "mv") and st[2][2][1][0] == l:
+                    negated = True
+        ok = (e[1] == "Ne") != negated
+        col.check(R, "normalized_boundaries:denormal-exponent", ok,
+                  "`%s` as a condition for the closer lower boundary: only the smallest normal exponent may be *excluded*; requiring it removes the closer boundary from every other power of two" % show(e), f.loc(sp))
+
+
+# ---------------------------------------------------------------------------------------------
+def rule_min_digits_allowance(col, facts):
+    """TBL-size (min digits): buffer_size_const's significant-digit term must be at least
+    min_significant_digits whenever that option is set: on *every* path to the final `count += digits`
+    the option is consulted, and on its Some edge the term is compared with (and can be replaced by) its
+    value.  A path that never looks at it sizes the buffer for 28 / 64 digits while the writer pads to
+    min_significant_digits."""
+    from rules.core import enum_paths
+    R = "TBL-size"
+    f = facts.fn(WF + "options::Options::buffer_size_const")
+    # the last self-increment of the counter whose addend is not a constant and not the exponent term
+    counter = None
+    for l, ds in f.defs().items():
+        if any(rv[0] == "use" and rv[1][0] == "k" and rv[1][1].get("ty") == "usize" and rv[1][1].get("v") == 2 for bb, j, rv, pr in ds) and len(ds) >= 4:
+            counter = l
+    if counter is None:
+        raise AnchorMissing("buffer_size_const: counter not found")
+    tg = None
+    for bb, j, rv, pr in f.defs()[counter]:
+        if rv[0] == "call":
+            continue
+        e = rvalue_expr(f, rv, 0)
+        if e[0] == "bin" and e[1] == "Add":
+            add = strip_casts(e[3])
+            if add[0] == "var" and f.names.get(add[1]) == "digits" or (add[0] == "var" and not any(p_ for p_ in [0])):
+                if add[0] == "var" and len(f.defs().get(add[1], [])) >= 2:
+                    tg = bb
+    col.check(R, "buffer_size_const:digits-term", tg is not None, "the `count += digits` term was not found", f.loc())
+    if tg is None:
+        return
+    paths = enum_paths(f, 0, {tg})
+    bad = None
+    n = 0
+    for _t, atoms in paths:
+        n += 1
+        consulted = None
+        compared = False
+        for e, p in atoms:
+            e = strip_casts(simplify_proj(e))
+            if e[0] == "discr" and any(last_seg(c[1]) == "min_significant_digits" for c in expr_calls(e)):
+                consulted = p
+            if e[0] == "bin" and e[1] in ("Gt", "Lt", "Ge", "Le") and any(last_seg(c[1]) == "min_significant_digits" for c in expr_calls(e)):
+                compared = True
+        is_some = consulted is not None and (consulted == ("eq", 1) or (isinstance(consulted, tuple) and consulted[0] == "ne" and 1 not in consulted[1]))
+        if consulted is None or (is_some and not compared):
+            bad = [(show(e)[:60], p) for e, p in atoms][-4:]
+    col.check(R, "buffer_size_const:min-digits-on-every-path", bad is None and n >= 2,
+              "a path to `count += digits` %s: the bound ignores min_significant_digits there (last conditions %s)" % ("exists that never consults / compares min_significant_digits()", bad), f.loc(f.blocks[tg]["ts"]))
 
 
 # ---------------------------------------------------------------------------------------------
